@@ -127,3 +127,48 @@ pub fn cfg(b: &Bias) -> BoxedStrategy<Cfg> {
 pub fn seq_case(b: &Bias) -> BoxedStrategy<SeqCase> {
     (cfg(b), vec(step(b), b.min_steps..=b.max_steps)).prop_map(|(cfg, steps)| SeqCase { cfg, steps }).boxed()
 }
+
+// ---------------------------------------------------------------------------------------------
+// E2 cases
+
+use crate::e2::{E2Case, End, Epoch};
+
+pub fn e2_step(keys: u8, big: u32, reopen: u32, allow_flip: bool) -> BoxedStrategy<Step> {
+    let mut alts: Vec<(u32, BoxedStrategy<Step>)> = vec![
+        (10, (0..keys, content(big), cuts()).prop_map(|(k, c, cuts)| Step::Put { k, c, cuts }).boxed()),
+        (3, (0..keys).prop_map(|k| Step::Remove { k }).boxed()),
+        (3, (bound(keys), bound(keys)).prop_map(|(lo, hi)| Step::RemoveRange { lo, hi }).boxed()),
+        (1, Just(Step::RemoveRange { lo: B::U, hi: B::U }).boxed()),
+        (2, Just(Step::Checkpoint).boxed()),
+    ];
+    if reopen > 0 {
+        alts.push((reopen, any::<bool>().prop_map(move |f| Step::Reopen { flip: f && allow_flip }).boxed()));
+    }
+    Union::new_weighted(alts).boxed()
+}
+
+#[derive(Clone, Debug)]
+pub struct E2Bias {
+    pub key_types: Vec<&'static str>,
+    pub ns: Vec<(u32, u64)>,
+    pub max_epochs: usize,
+    pub min_ops: usize,
+    pub max_ops: usize,
+    pub sync_only: bool,
+    pub big: u32,
+    pub validate: usize,
+}
+
+pub fn e2_case(b: &E2Bias) -> BoxedStrategy<E2Case> {
+    let kts: Vec<String> = b.key_types.iter().map(|s| s.to_string()).collect();
+    let ns: Vec<(u32, BoxedStrategy<u64>)> = b.ns.iter().map(|(w, n)| (*w, Just(*n).boxed())).collect();
+    let sync_only = b.sync_only;
+    let cfg = (proptest::sample::select(kts), Union::new_weighted(ns), any::<bool>(), any::<bool>(), any::<bool>())
+        .prop_map(move |(kt, n, asyn, scan, verify)| Cfg { kt, n, asyn: asyn && !sync_only, scan, verify });
+    let end = prop_oneof![1 => Just(End::Clean), 3 => any::<u16>().prop_map(End::Crash)];
+    let epoch = (vec(e2_step(7, b.big, 1, !sync_only), b.min_ops..=b.max_ops), prop::bool::weighted(0.3), prop::bool::weighted(if sync_only { 0.0 } else { 0.2 }), end)
+        .prop_map(|(ops, cleanup, flip_sync, end)| Epoch { ops, cleanup, flip_sync, end });
+    (cfg, vec(epoch, 1..=b.max_epochs), vec(any::<u16>(), b.validate..=b.validate))
+        .prop_map(|(cfg, epochs, validate)| E2Case { cfg, epochs, validate })
+        .boxed()
+}
